@@ -1,17 +1,13 @@
-import CuqiVerif.Model.C20
-import Mathlib.Algebra.BigOperators.Group.Finset.Basic
-import Mathlib.Algebra.BigOperators.Ring.Finset
-import Mathlib.Algebra.Order.BigOperators.Ring.Finset
-import Mathlib.Algebra.Order.Field.Basic
-import Mathlib.Tactic.Ring
-import Mathlib.Tactic.Linarith
-import Mathlib.Tactic.Positivity
+import CuqiVerif.Proofs.C20
+import Mathlib.Tactic.LinearCombination
 
 /-!
 # C20 — property theorems
 
-`apply M x i = Σ_{j < cols} M.e i j · x j` is the action of a model matrix on a vector
-`x : ℕ → R` (only indices `< cols` are read).  The theorems hold for every size `n`.
+`apply M x i = Σ_{j < cols} M.e i j · x j` (defined in `Proofs/C20.lean`) is the action of a model
+matrix on a vector `x : ℕ → R` (only indices `< cols` are read).  The theorems hold for every
+size `n`; they are about the very definitions the driver executes (`Model/C20.lean`), whose
+integer entries are cast into the ring `R`.
 -/
 open Finset
 
@@ -19,62 +15,959 @@ namespace CuqiVerif.C20
 
 variable {R : Type*} [CommRing R]
 
-/-- action of a model matrix on a vector -/
-def apply (M : FMat) (x : ℕ → R) (i : ℕ) : R := ∑ j ∈ range M.cols, (M.e i j : R) * x j
+/-- replace the entries of row `i` (columns `< cols` only) by a closed form -/
+lemma apply_congr (M : FMat) (x : ℕ → R) (i : ℕ) (f : ℕ → ℤ)
+    (h : ∀ j, j < M.cols → M.e i j = f j) :
+    apply M x i = ∑ j ∈ range M.cols, (f j : R) * x j :=
+  Finset.sum_congr rfl fun j hj => by rw [h j (mem_range.1 hj)]
 
-lemma sum_delta (n k : ℕ) (x : ℕ → R) :
-    ∑ j ∈ range n, (if j = k then (1:R) else 0) * x j = if k < n then x k else 0 := by
-  simp [ite_mul, Finset.sum_ite_eq']
+/-- **`apply` determines the matrix:** acting on the `j`-th unit vector returns entry `(i, j)`;
+    hence each `*_apply` theorem below fixes every entry of every row of the model matrix
+    (the entry-by-entry forms are the `*_entry` lemmas of `Proofs/C20.lean`). -/
+theorem apply_basis (M : FMat) (i j : ℕ) (hj : j < M.cols) :
+    apply M (fun k => if k = j then (1 : R) else 0) i = (M.e i j : R) := by
+  unfold apply
+  rw [Finset.sum_eq_single j]
+  · dsimp only; rw [if_pos rfl, mul_one]
+  · intro k _ hk; dsimp only; rw [if_neg hk, mul_zero]
+  · intro h; exact absurd (mem_range.2 hj) h
 
-lemma sum_delta_shift (n k d : ℕ) (x : ℕ → R) :
-    ∑ j ∈ range n, (if j + d = k then (1:R) else 0) * x j
-      = if d ≤ k ∧ k - d < n then x (k - d) else 0 := by
-  by_cases h : d ≤ k
-  · have : ∀ j, (j + d = k) ↔ (j = k - d) := fun j => by omega
-    simp only [this, h, true_and]
-    exact sum_delta n (k - d) x
-  · have : ∀ j, ¬ (j + d = k) := fun j => by omega
-    simp [this, h]
+example : apply (firstOrder .periodic 4) (fun k => if k = 3 then (1 : ℤ) else 0) 0 = -1 := by
+  rw [apply_basis _ _ _ (by decide)]; decide
 
-/-- entries of the zero-boundary first-order operator -/
-lemma firstOrder_zero_entry (n i j : ℕ) :
-    (firstOrder .zero n).e i j = (if j = i then 1 else 0) - (if j + 1 = i then 1 else 0) := by
-  simp only [firstOrder, spdiags, List.foldl]
-  split_ifs <;> omega
+/-! ## 1. Stencils: the action of every 1-D operator, every row, every size -/
 
 /-- **Stencil, zero boundary, every n and every row (boundary rows included):**
     `(D x)_i = x_i - x_{i-1}` with `x_{-1} = x_n = 0`. -/
 theorem firstOrder_zero_apply (n : ℕ) (x : ℕ → R) (i : ℕ) :
     apply (firstOrder .zero n) x i
       = (if i < n then x i else 0) - (if 1 ≤ i ∧ i - 1 < n then x (i - 1) else 0) := by
-  unfold apply
-  have hc : (firstOrder .zero n).cols = n := rfl
-  rw [hc]
-  simp only [firstOrder_zero_entry]
+  rw [apply_congr _ x i _ (fun j _ => firstOrder_zero_entry n i j)]
+  rw [show (firstOrder .zero n).cols = n from rfl]
   push_cast
   simp only [sub_mul, Finset.sum_sub_distrib]
   rw [sum_delta, sum_delta_shift]
 
-/-- **Null space, zero boundary: trivial for every n.** -/
-theorem firstOrder_zero_null {K : Type*} [Field K] (n : ℕ) (x : ℕ → K)
-    (h : ∀ i, i < n + 1 → apply (firstOrder .zero n) x i = 0) : ∀ i, i < n → x i = 0 := by
-  intro i
-  induction i with
-  | zero =>
-    intro hi
-    have := h 0 (by omega)
-    rw [firstOrder_zero_apply] at this
-    simpa [hi] using this
-  | succ k ih =>
-    intro hi
-    have h1 := h (k + 1) (by omega)
-    rw [firstOrder_zero_apply] at h1
-    have hk : x k = 0 := ih (by omega)
-    have : k + 1 - 1 = k := by omega
-    simp [hi, this, hk, show k < n by omega] at h1
-    exact h1
-
 example : apply (firstOrder .zero 3) (fun j => ((j : ℤ) + 1) ^ 2) 2 = 5 := by
   rw [firstOrder_zero_apply]; norm_num
+
+/-- **Stencil, periodic boundary (`n ≥ 2`), all `n+1` rows:** `(D x)_i = x_{i mod n} - x_{(i-1) mod n}`;
+    the wrap-around rows `0` and `n` both equal `x_0 - x_{n-1}` (the code's patches
+    `Dmat[-1,0] = 1`, `Dmat[0,-1] = -1`). -/
+theorem firstOrder_periodic_apply (n : ℕ) (hn : 2 ≤ n) (x : ℕ → R) (i : ℕ) (hi : i ≤ n) :
+    apply (firstOrder .periodic n) x i = x (i % n) - x ((i + n - 1) % n) := by
+  rw [apply_congr _ x i _ (fun j hj => firstOrder_periodic_entry n i j hn hi hj)]
+  rw [show (firstOrder .periodic n).cols = n from rfl]
+  push_cast
+  simp only [sub_mul, Finset.sum_sub_distrib]
+  have h1 : (if i = n then 0 else i) = i % n := by
+    split_ifs with h
+    · subst h; simp
+    · rw [Nat.mod_eq_of_lt (by omega)]
+  have h2 : (if i = 0 ∨ i = n then n - 1 else i - 1) = (i + n - 1) % n := by
+    split_ifs with h
+    · rcases h with h | h
+      · subst h; rw [Nat.zero_add, Nat.mod_eq_of_lt (by omega)]
+      · subst h
+        rw [show i + i - 1 = (i - 1) + i by omega, Nat.add_mod_right, Nat.mod_eq_of_lt (by omega)]
+    · rw [show i + n - 1 = (i - 1) + n by omega, Nat.add_mod_right, Nat.mod_eq_of_lt (by omega)]
+  rw [h1, h2, sum_delta_lt (Nat.mod_lt _ (by omega)), sum_delta_lt (Nat.mod_lt _ (by omega))]
+
+example : apply (firstOrder .periodic 3) (fun j => ((j : ℤ) + 1) ^ 2) 0 = -8 := by
+  rw [firstOrder_periodic_apply 3 (by norm_num) _ 0 (by norm_num)]; norm_num
+
+/-- **Stencil, Neumann boundary, all `n-1` rows:** `(D x)_i = x_{i+1} - x_i` (forward difference,
+    no boundary row at all). -/
+theorem firstOrder_neumann_apply (n : ℕ) (x : ℕ → R) (i : ℕ) :
+    apply (firstOrder .neumann n) x i
+      = (if i + 1 < n then x (i + 1) else 0) - (if i < n then x i else 0) := by
+  rw [apply_congr _ x i _ (fun j _ => firstOrder_neumann_entry n i j)]
+  rw [show (firstOrder .neumann n).cols = n from rfl]
+  push_cast
+  simp only [sub_mul, Finset.sum_sub_distrib]
+  rw [sum_delta, sum_delta]
+
+example : apply (firstOrder .neumann 3) (fun j => ((j : ℤ) + 1) ^ 2) 1 = 5 := by
+  rw [firstOrder_neumann_apply]; norm_num
+
+/-- **Stencil, `backward` boundary, all `n` rows:** row 0 is `x_0` (the patch `Dmat[0,0] = 1`),
+    row `i ≥ 1` is `x_{i-1} - x_i`. -/
+theorem firstOrder_backward_apply (n : ℕ) (x : ℕ → R) (i : ℕ) :
+    apply (firstOrder .backward n) x i
+      = if i = 0 then (if 0 < n then x 0 else 0)
+        else (if i - 1 < n then x (i - 1) else 0) - (if i < n then x i else 0) := by
+  cases i with
+  | zero =>
+    rw [apply_congr _ x 0 _ (fun j _ => firstOrder_backward_entry_zero n j)]
+    rw [show (firstOrder .backward n).cols = n from rfl]
+    push_cast
+    rw [sum_delta]
+  | succ k =>
+    rw [apply_congr _ x (k + 1) _ (fun j _ => firstOrder_backward_entry_succ n k j)]
+    rw [show (firstOrder .backward n).cols = n from rfl]
+    push_cast
+    simp only [sub_mul, Finset.sum_sub_distrib]
+    rw [sum_delta, sum_delta]
+
+example : apply (firstOrder .backward 3) (fun j => ((j : ℤ) + 1) ^ 2) 2 = -5 := by
+  rw [firstOrder_backward_apply]; norm_num
+
+/-- **Stencil, `none`: the identity** (also the order-0 operator of `PrecisionFiniteDifference`). -/
+theorem firstOrder_none_apply (n : ℕ) (x : ℕ → R) (i : ℕ) :
+    apply (firstOrder .none n) x i = if i < n then x i else 0 := by
+  rw [apply_congr _ x i _ (fun j _ => firstOrder_none_entry n i j)]
+  rw [show (firstOrder .none n).cols = n from rfl]
+  push_cast
+  rw [sum_delta]
+
+example : apply (firstOrder .none 3) (fun j => ((j : ℤ) + 1) ^ 2) 2 = 9 := by
+  rw [firstOrder_none_apply]; norm_num
+
+/-- **Second-order stencil, zero boundary, all `n+2` rows:**
+    `(D x)_i = -x_{i-2} + 2 x_{i-1} - x_i` with every out-of-range value `0`. -/
+theorem secondOrder_zero_apply (n : ℕ) (x : ℕ → R) (i : ℕ) :
+    apply (secondOrder .zero n) x i
+      = -(if 2 ≤ i ∧ i - 2 < n then x (i - 2) else 0)
+        + 2 * (if 1 ≤ i ∧ i - 1 < n then x (i - 1) else 0) - (if i < n then x i else 0) := by
+  rw [apply_congr _ x i _ (fun j _ => secondOrder_zero_entry n i j)]
+  rw [show (secondOrder .zero n).cols = n from rfl]
+  push_cast
+  simp only [sub_mul, add_mul, neg_mul, mul_assoc, Finset.sum_sub_distrib, Finset.sum_add_distrib,
+    Finset.sum_neg_distrib, ← Finset.mul_sum]
+  rw [sum_delta, sum_delta_shift, sum_delta_shift]
+
+example : apply (secondOrder .zero 3) (fun j => ((j : ℤ) + 1) ^ 2) 2 = -2 := by
+  rw [secondOrder_zero_apply]; norm_num
+
+/-- **Second-order stencil, Neumann boundary, all `n-2` rows:**
+    `(D x)_i = -x_i + 2 x_{i+1} - x_{i+2}` (interior rows only). -/
+theorem secondOrder_neumann_apply (n : ℕ) (x : ℕ → R) (i : ℕ) :
+    apply (secondOrder .neumann n) x i
+      = -(if i < n then x i else 0) + 2 * (if i + 1 < n then x (i + 1) else 0)
+        - (if i + 2 < n then x (i + 2) else 0) := by
+  rw [apply_congr _ x i _ (fun j _ => secondOrder_neumann_entry n i j)]
+  rw [show (secondOrder .neumann n).cols = n from rfl]
+  push_cast
+  simp only [sub_mul, add_mul, neg_mul, mul_assoc, Finset.sum_sub_distrib, Finset.sum_add_distrib,
+    Finset.sum_neg_distrib, ← Finset.mul_sum]
+  rw [sum_delta, sum_delta, sum_delta]
+
+example : apply (secondOrder .neumann 4) (fun j => ((j : ℤ) + 1) ^ 2) 1 = -2 := by
+  rw [secondOrder_neumann_apply]; norm_num
+
+/-- a row with entries `-[j=a] + 2[j=b] - [j=c]` acts as `-x_a + 2 x_b - x_c` -/
+lemma apply_three (M : FMat) (x : ℕ → R) (i a b c : ℕ) (ha : a < M.cols) (hb : b < M.cols)
+    (hc : c < M.cols)
+    (h : ∀ j, j < M.cols → M.e i j
+      = -(if j = a then 1 else 0) + 2 * (if j = b then 1 else 0) - (if j = c then 1 else 0)) :
+    apply M x i = -x a + 2 * x b - x c := by
+  rw [apply_congr M x i _ h]
+  push_cast
+  simp only [sub_mul, add_mul, neg_mul, mul_assoc, Finset.sum_sub_distrib, Finset.sum_add_distrib,
+    Finset.sum_neg_distrib, ← Finset.mul_sum]
+  rw [sum_delta_lt ha, sum_delta_lt hb, sum_delta_lt hc]
+
+lemma mod_wrap {n a r : ℕ} (h : a = r + n + n ∨ a = r + n ∨ a = r) (hr : r < n) : a % n = r := by
+  rcases h with h | h | h
+  · rw [h, Nat.add_mod_right, Nat.add_mod_right, Nat.mod_eq_of_lt hr]
+  · rw [h, Nat.add_mod_right, Nat.mod_eq_of_lt hr]
+  · rw [h, Nat.mod_eq_of_lt hr]
+
+/-- **Second-order stencil, periodic boundary (`n ≥ 3`), all `n+2` rows:**
+    `(D x)_i = -x_{(i-2) mod n} + 2 x_{(i-1) mod n} - x_{i mod n}` — the six patched entries of
+    the code (`Dmat[0,-2]`, `Dmat[0:2,-1]`, `Dmat[-2,0]`, `Dmat[-1,0:2]`) are exactly the
+    wrap-around of the stencil; rows `n, n+1` repeat rows `0, 1`. -/
+theorem secondOrder_periodic_apply (n : ℕ) (hn : 3 ≤ n) (x : ℕ → R) (i : ℕ) (hi : i ≤ n + 1) :
+    apply (secondOrder .periodic n) x i
+      = -x ((i + n - 2) % n) + 2 * x ((i + n - 1) % n) - x (i % n) := by
+  have lt : ∀ a, a < n → a < (secondOrder .periodic n).cols := fun _ h => h
+  have h5 : i = 0 ∨ i = 1 ∨ (2 ≤ i ∧ i < n) ∨ i = n ∨ i = n + 1 := by omega
+  rcases h5 with h | h | h | h | h
+  · rw [mod_wrap (r := n - 2) (by omega) (by omega), mod_wrap (r := n - 1) (by omega) (by omega),
+      mod_wrap (r := 0) (by omega) (by omega)]
+    subst h
+    exact apply_three _ x 0 _ _ _ (lt _ (by omega)) (lt _ (by omega)) (lt _ (by omega))
+      (fun j _ => secondOrder_periodic_entry_row0 n j hn)
+  · rw [mod_wrap (r := n - 1) (by omega) (by omega), mod_wrap (r := 0) (by omega) (by omega),
+      mod_wrap (r := 1) (by omega) (by omega)]
+    subst h
+    exact apply_three _ x 1 _ _ _ (lt _ (by omega)) (lt _ (by omega)) (lt _ (by omega))
+      (fun j _ => secondOrder_periodic_entry_row1 n j hn)
+  · rw [mod_wrap (r := i - 2) (by omega) (by omega), mod_wrap (r := i - 1) (by omega) (by omega),
+      mod_wrap (r := i) (by omega) (by omega)]
+    exact apply_three _ x i _ _ _ (lt _ (by omega)) (lt _ (by omega)) (lt _ (by omega))
+      (fun j _ => secondOrder_periodic_entry_mid n i j h.1 h.2)
+  · rw [mod_wrap (r := n - 2) (by omega) (by omega), mod_wrap (r := n - 1) (by omega) (by omega),
+      mod_wrap (r := 0) (by omega) (by omega)]
+    exact apply_three _ x i _ _ _ (lt _ (by omega)) (lt _ (by omega)) (lt _ (by omega))
+      (fun j hj => secondOrder_periodic_entry_rown n i j hn h hj)
+  · rw [mod_wrap (r := n - 1) (by omega) (by omega), mod_wrap (r := 0) (by omega) (by omega),
+      mod_wrap (r := 1) (by omega) (by omega)]
+    exact apply_three _ x i _ _ _ (lt _ (by omega)) (lt _ (by omega)) (lt _ (by omega))
+      (fun j hj => secondOrder_periodic_entry_rown1 n i j hn h hj)
+
+example : apply (secondOrder .periodic 4) (fun j => ((j : ℤ) + 1) ^ 2) 5 = -18 := by
+  rw [secondOrder_periodic_apply 4 (by norm_num) _ 5 (by norm_num)]; norm_num
+
+/-! ## 2. The precision `P = Dᵀ D` (`PrecisionFiniteDifference`): symmetric, PSD, same null space -/
+
+/-- **`gram D` is `Dᵀ D`:** the `List.range … foldl` accumulation of the model is the finite sum
+    `(Dᵀ D)_{ij} = Σ_k D_{ki} D_{kj}`. -/
+theorem gram_entry (D : FMat) (i j : ℕ) :
+    (gram D).e i j = ∑ k ∈ range D.rows, D.e k i * D.e k j :=
+  foldl_range_eq_sum _ _
+
+example : (gram (firstOrder .neumann 3)).e 1 1 = 2 := by decide
+
+/-- **The precision matrix is symmetric** (any operator `D`, any shape). -/
+theorem gram_symm (D : FMat) (i j : ℕ) : (gram D).e i j = (gram D).e j i := by
+  rw [gram_entry, gram_entry]
+  exact Finset.sum_congr rfl fun k _ => mul_comm _ _
+
+example : (gram (secondOrder .periodic 4)).e 0 3 = (gram (secondOrder .periodic 4)).e 3 0 :=
+  gram_symm _ _ _
+
+/-- **`P x = Dᵀ (D x)`:** applying the precision is applying `D` and then its transpose. -/
+theorem gram_apply (D : FMat) (x : ℕ → R) (i : ℕ) :
+    apply (gram D) x i = ∑ k ∈ range D.rows, (D.e k i : R) * apply D x k := by
+  unfold apply
+  rw [show (gram D).cols = D.cols from rfl]
+  simp only [gram_entry]
+  push_cast
+  simp only [Finset.sum_mul, Finset.mul_sum]
+  rw [Finset.sum_comm]
+  exact Finset.sum_congr rfl fun k _ => Finset.sum_congr rfl fun j _ => by ring
+
+/-- **`xᵀ P x = ‖D x‖²`** for every operator and every vector (over any commutative ring). -/
+theorem gram_quadratic_form (D : FMat) (x : ℕ → R) :
+    ∑ i ∈ range D.cols, x i * apply (gram D) x i = ∑ k ∈ range D.rows, (apply D x k) ^ 2 := by
+  calc ∑ i ∈ range D.cols, x i * apply (gram D) x i
+      = ∑ i ∈ range D.cols, ∑ k ∈ range D.rows, x i * ((D.e k i : R) * apply D x k) :=
+        Finset.sum_congr rfl fun i _ => by rw [gram_apply, Finset.mul_sum]
+    _ = ∑ k ∈ range D.rows, ∑ i ∈ range D.cols, x i * ((D.e k i : R) * apply D x k) :=
+        Finset.sum_comm
+    _ = ∑ k ∈ range D.rows, (apply D x k) ^ 2 := by
+        refine Finset.sum_congr rfl fun k _ => ?_
+        rw [pow_two]
+        calc ∑ i ∈ range D.cols, x i * ((D.e k i : R) * apply D x k)
+            = (∑ i ∈ range D.cols, (D.e k i : R) * x i) * apply D x k := by
+              rw [Finset.sum_mul]
+              exact Finset.sum_congr rfl fun i _ => by ring
+          _ = apply D x k * apply D x k := rfl
+
+example : ∑ i ∈ range 3, (fun j => ((j : ℤ) + 1) ^ 2) i
+      * apply (gram (firstOrder .neumann 3)) (fun j => ((j : ℤ) + 1) ^ 2) i = 3 ^ 2 + 5 ^ 2 :=
+  (gram_quadratic_form (firstOrder .neumann 3) _).trans (by
+    simp [Finset.sum_range_succ, firstOrder_neumann_apply,
+      show (firstOrder .neumann 3).rows = 2 from rfl])
+
+section ordered
+variable {K : Type*} [CommRing K] [LinearOrder K] [IsStrictOrderedRing K]
+
+/-- **The precision is positive semidefinite:** `xᵀ P x ≥ 0` (ordered ring, e.g. `ℚ`, `ℝ`). -/
+theorem gram_psd (D : FMat) (x : ℕ → K) :
+    0 ≤ ∑ i ∈ range D.cols, x i * apply (gram D) x i := by
+  rw [gram_quadratic_form]
+  exact Finset.sum_nonneg fun k _ => sq_nonneg _
+
+/-- **The precision has exactly the null space of the operator:** `P x = 0 ↔ D x = 0`
+    (so `rank P = rank D = n - nullity D`, which is what GMRF's `_rank` should report). -/
+theorem gram_null_iff (D : FMat) (x : ℕ → K) :
+    (∀ i, i < D.cols → apply (gram D) x i = 0) ↔ (∀ k, k < D.rows → apply D x k = 0) := by
+  constructor
+  · intro h k hk
+    have hq : ∑ k ∈ range D.rows, (apply D x k) ^ 2 = 0 := by
+      rw [← gram_quadratic_form]
+      exact Finset.sum_eq_zero fun i hi => by rw [h i (mem_range.1 hi), mul_zero]
+    have := (Finset.sum_eq_zero_iff_of_nonneg (fun k _ => sq_nonneg (apply D x k))).1 hq k
+      (mem_range.2 hk)
+    exact pow_eq_zero_iff (two_ne_zero) |>.1 this
+  · intro h i _
+    rw [gram_apply]
+    exact Finset.sum_eq_zero fun k hk => by rw [h k (mem_range.1 hk), mul_zero]
+
+example : ∀ i, i < 3 → apply (gram (firstOrder .neumann 3)) (fun _ => (7 : ℚ)) i = 0 :=
+  (gram_null_iff (firstOrder .neumann 3) _).2 (fun k hk => by
+    have hk : k < 2 := hk
+    rw [firstOrder_neumann_apply, if_pos (by omega), if_pos (by omega), sub_self])
+
+end ordered
+
+/-! ## 3. Null spaces of the 1-D operators, every size -/
+
+/-- a sequence with vanishing forward differences is constant -/
+lemma const_of_step {A : Type*} (n : ℕ) (x : ℕ → A) (h : ∀ i, i + 1 < n → x (i + 1) = x i) :
+    ∀ i, i < n → x i = x 0 := by
+  intro i
+  induction i with
+  | zero => intro _; rfl
+  | succ k ih => intro hk; rw [h k hk, ih (by omega)]
+
+/-- a sequence with vanishing second differences is affine -/
+lemma affine_of_step (n : ℕ) (x : ℕ → R)
+    (h : ∀ i, i + 2 < n → x (i + 2) = 2 * x (i + 1) - x i) :
+    ∀ i, i < n → x i = x 0 + (i : R) * (x 1 - x 0) := by
+  intro i
+  induction i using Nat.strong_induction_on with
+  | _ i ih =>
+    intro hi
+    match i, ih, hi with
+    | 0, _, _ => simp
+    | 1, _, _ => simp
+    | k + 2, ih, hi =>
+      rw [h k hi, ih (k + 1) (by omega) (by omega), ih k (by omega) (by omega)]
+      push_cast; ring
+
+/-- **Null space, first order, zero boundary: trivial for every n** (`D x = 0 ↔ x = 0`). -/
+theorem firstOrder_zero_null_iff (n : ℕ) (x : ℕ → R) :
+    (∀ i, i < (firstOrder .zero n).rows → apply (firstOrder .zero n) x i = 0)
+      ↔ ∀ i, i < n → x i = 0 := by
+  have hr : (firstOrder .zero n).rows = n + 1 := rfl
+  rw [hr]
+  constructor
+  · intro h i
+    induction i with
+    | zero =>
+      intro hi
+      have := h 0 (by omega)
+      rw [firstOrder_zero_apply] at this
+      simpa [hi] using this
+    | succ k ih =>
+      intro hi
+      have h1 := h (k + 1) (by omega)
+      rw [firstOrder_zero_apply, if_pos hi, if_pos (by omega), Nat.add_sub_cancel,
+        ih (by omega), sub_zero] at h1
+      exact h1
+  · intro h i _
+    rw [firstOrder_zero_apply]
+    have a : (if i < n then x i else 0) = 0 := by split_ifs with c; exacts [h i c, rfl]
+    have b : (if 1 ≤ i ∧ i - 1 < n then x (i - 1) else 0) = 0 := by
+      split_ifs with c; exacts [h _ c.2, rfl]
+    rw [a, b, sub_zero]
+
+example : ∀ i, i < 3 → (fun _ => (0 : ℚ)) i = 0 :=
+  (firstOrder_zero_null_iff 3 _).1 (fun i _ => by rw [firstOrder_zero_apply]; simp)
+
+/-- **Null space, first order, periodic boundary (`n ≥ 2`): exactly the constants.** -/
+theorem firstOrder_periodic_null_iff (n : ℕ) (hn : 2 ≤ n) (x : ℕ → R) :
+    (∀ i, i < (firstOrder .periodic n).rows → apply (firstOrder .periodic n) x i = 0)
+      ↔ ∀ i, i < n → x i = x 0 := by
+  have hr : (firstOrder .periodic n).rows = n + 1 := rfl
+  rw [hr]
+  constructor
+  · intro h
+    refine const_of_step n x fun i hi => ?_
+    have h1 := h (i + 1) (by omega)
+    rw [firstOrder_periodic_apply n hn x (i + 1) (by omega),
+      mod_wrap (r := i + 1) (by omega) (by omega), mod_wrap (r := i) (by omega) (by omega)] at h1
+    exact sub_eq_zero.1 h1
+  · intro h i hi
+    rw [firstOrder_periodic_apply n hn x i (by omega), h _ (Nat.mod_lt _ (by omega)),
+      h _ (Nat.mod_lt _ (by omega)), sub_self]
+
+example : ∀ i, i < 4 → apply (firstOrder .periodic 3) (fun _ => (7 : ℚ)) i = 0 :=
+  (firstOrder_periodic_null_iff 3 (by norm_num) _).2 (fun _ _ => rfl)
+
+/-- **Null space, first order, Neumann boundary: exactly the constants, every n.** -/
+theorem firstOrder_neumann_null_iff (n : ℕ) (x : ℕ → R) :
+    (∀ i, i < (firstOrder .neumann n).rows → apply (firstOrder .neumann n) x i = 0)
+      ↔ ∀ i, i < n → x i = x 0 := by
+  have hr : (firstOrder .neumann n).rows = n - 1 := rfl
+  rw [hr]
+  constructor
+  · intro h
+    refine const_of_step n x fun i hi => ?_
+    have h1 := h i (by omega)
+    rw [firstOrder_neumann_apply, if_pos hi, if_pos (by omega)] at h1
+    exact sub_eq_zero.1 h1
+  · intro h i hi
+    rw [firstOrder_neumann_apply, if_pos (by omega), if_pos (by omega), h _ (by omega),
+      h i (by omega), sub_self]
+
+example : ∀ i, i < 2 → apply (firstOrder .neumann 3) (fun _ => (7 : ℚ)) i = 0 :=
+  (firstOrder_neumann_null_iff 3 _).2 (fun _ _ => rfl)
+
+/-- **Null space, first order, `backward`: trivial for every n.** -/
+theorem firstOrder_backward_null_iff (n : ℕ) (x : ℕ → R) :
+    (∀ i, i < (firstOrder .backward n).rows → apply (firstOrder .backward n) x i = 0)
+      ↔ ∀ i, i < n → x i = 0 := by
+  have hr : (firstOrder .backward n).rows = n := rfl
+  rw [hr]
+  constructor
+  · intro h i
+    induction i with
+    | zero =>
+      intro hi
+      have := h 0 hi
+      rw [firstOrder_backward_apply, if_pos rfl, if_pos hi] at this
+      exact this
+    | succ k ih =>
+      intro hi
+      have h1 := h (k + 1) hi
+      rw [firstOrder_backward_apply, if_neg (by omega), if_pos (by omega), if_pos hi,
+        Nat.add_sub_cancel, ih (by omega), zero_sub, neg_eq_zero] at h1
+      exact h1
+  · intro h i hi
+    rw [firstOrder_backward_apply]
+    by_cases c : i = 0
+    · rw [if_pos c, if_pos (by omega), h 0 (by omega)]
+    · rw [if_neg c, if_pos (by omega), if_pos hi, h _ (by omega), h i hi, sub_self]
+
+example : ∀ i, i < 3 → (fun _ => (0 : ℚ)) i = 0 :=
+  (firstOrder_backward_null_iff 3 _).1 (fun i _ => by rw [firstOrder_backward_apply]; simp)
+
+/-- **Null space, `none` (identity; also every order-0 precision): trivial for every n.** -/
+theorem firstOrder_none_null_iff (n : ℕ) (x : ℕ → R) :
+    (∀ i, i < (firstOrder .none n).rows → apply (firstOrder .none n) x i = 0)
+      ↔ ∀ i, i < n → x i = 0 := by
+  have hr : (firstOrder .none n).rows = n := rfl
+  rw [hr]
+  constructor
+  · intro h i hi
+    have := h i hi
+    rwa [firstOrder_none_apply, if_pos hi] at this
+  · intro h i hi
+    rw [firstOrder_none_apply, if_pos hi, h i hi]
+
+example : ∀ i, i < 3 → (fun _ => (0 : ℚ)) i = 0 :=
+  (firstOrder_none_null_iff 3 _).1 (fun i _ => by rw [firstOrder_none_apply]; simp)
+
+/-- **Null space, second order, zero boundary: trivial for every n.** -/
+theorem secondOrder_zero_null_iff (n : ℕ) (x : ℕ → R) :
+    (∀ i, i < (secondOrder .zero n).rows → apply (secondOrder .zero n) x i = 0)
+      ↔ ∀ i, i < n → x i = 0 := by
+  have hr : (secondOrder .zero n).rows = n + 2 := rfl
+  rw [hr]
+  constructor
+  · intro h i
+    induction i using Nat.strong_induction_on with
+    | _ i ih =>
+      intro hi
+      have h1 := h i (by omega)
+      have a : (if 2 ≤ i ∧ i - 2 < n then x (i - 2) else 0) = 0 := by
+        split_ifs with c; exacts [ih _ (by omega) c.2, rfl]
+      have b : (if 1 ≤ i ∧ i - 1 < n then x (i - 1) else 0) = 0 := by
+        split_ifs with c; exacts [ih _ (by omega) c.2, rfl]
+      rw [secondOrder_zero_apply, a, b, if_pos hi, neg_zero, mul_zero, zero_add, zero_sub,
+        neg_eq_zero] at h1
+      exact h1
+  · intro h i _
+    have a : (if 2 ≤ i ∧ i - 2 < n then x (i - 2) else 0) = 0 := by
+      split_ifs with c; exacts [h _ c.2, rfl]
+    have b : (if 1 ≤ i ∧ i - 1 < n then x (i - 1) else 0) = 0 := by
+      split_ifs with c; exacts [h _ c.2, rfl]
+    have c : (if i < n then x i else 0) = 0 := by split_ifs with c; exacts [h i c, rfl]
+    rw [secondOrder_zero_apply, a, b, c]; ring
+
+example : ∀ i, i < 3 → (fun _ => (0 : ℚ)) i = 0 :=
+  (secondOrder_zero_null_iff 3 _).1 (fun i _ => by rw [secondOrder_zero_apply]; simp)
+
+/-- **Null space, second order, Neumann boundary: exactly the affine sequences
+    `x_i = x_0 + i (x_1 - x_0)`, every n** — a two-parameter family (for `n ≥ 2`), so the
+    precision `DᵀD` has rank `n - 2`, not the `n - 1` GMRF declares. -/
+theorem secondOrder_neumann_null_iff (n : ℕ) (x : ℕ → R) :
+    (∀ i, i < (secondOrder .neumann n).rows → apply (secondOrder .neumann n) x i = 0)
+      ↔ ∀ i, i < n → x i = x 0 + (i : R) * (x 1 - x 0) := by
+  have hr : (secondOrder .neumann n).rows = n - 2 := rfl
+  rw [hr]
+  constructor
+  · intro h
+    refine affine_of_step n x fun i hi => ?_
+    have h1 := h i (by omega)
+    rw [secondOrder_neumann_apply, if_pos (by omega), if_pos (by omega), if_pos hi] at h1
+    linear_combination (-1 : R) * h1
+  · intro h i hi
+    rw [secondOrder_neumann_apply, if_pos (by omega), if_pos (by omega), if_pos (by omega),
+      h i (by omega), h (i + 1) (by omega), h (i + 2) (by omega)]
+    push_cast; ring
+
+example : ∀ i, i < 2 → apply (secondOrder .neumann 4) (fun j => (5 : ℚ) + 3 * j) i = 0 :=
+  (secondOrder_neumann_null_iff 4 _).2 (fun i _ => by simp; ring)
+
+/-- **Null space, second order, periodic boundary (`n ≥ 3`): exactly the constants**
+    (over a domain of characteristic zero: `ℤ`, `ℚ`, `ℝ`). -/
+theorem secondOrder_periodic_null_iff {K : Type*} [CommRing K] [IsDomain K] [CharZero K]
+    (n : ℕ) (hn : 3 ≤ n) (x : ℕ → K) :
+    (∀ i, i < (secondOrder .periodic n).rows → apply (secondOrder .periodic n) x i = 0)
+      ↔ ∀ i, i < n → x i = x 0 := by
+  have hr : (secondOrder .periodic n).rows = n + 2 := rfl
+  rw [hr]
+  constructor
+  · intro h
+    have haff := affine_of_step n x fun i hi => by
+      have h1 := h (i + 2) (by omega)
+      rw [secondOrder_periodic_apply n hn x (i + 2) (by omega),
+        mod_wrap (r := i) (by omega) (by omega), mod_wrap (r := i + 1) (by omega) (by omega),
+        mod_wrap (r := i + 2) (by omega) (by omega)] at h1
+      linear_combination (-1 : K) * h1
+    have h1 := h 1 (by omega)
+    obtain ⟨m, rfl⟩ : ∃ m, n = m + 1 := ⟨n - 1, by omega⟩
+    rw [secondOrder_periodic_apply (m + 1) hn x 1 (by omega),
+      mod_wrap (r := m) (by omega) (by omega), mod_wrap (r := 0) (by omega) (by omega),
+      mod_wrap (r := 1) (by omega) (by omega), haff m (by omega)] at h1
+    have h2 : ((m + 1 : ℕ) : K) * (x 1 - x 0) = 0 := by
+      push_cast; linear_combination (-1 : K) * h1
+    have hd : x 1 - x 0 = 0 := by
+      rcases mul_eq_zero.1 h2 with h3 | h3
+      · exact absurd h3 (Nat.cast_ne_zero.2 (by omega))
+      · exact h3
+    intro i hi
+    rw [haff i hi, hd, mul_zero, add_zero]
+  · intro h i hi
+    rw [secondOrder_periodic_apply n hn x i (by omega), h _ (Nat.mod_lt _ (by omega)),
+      h _ (Nat.mod_lt _ (by omega)), h _ (Nat.mod_lt _ (by omega))]
+    ring
+
+example : ∀ i, i < 6 → apply (secondOrder .periodic 4) (fun _ => (7 : ℚ)) i = 0 :=
+  (secondOrder_periodic_null_iff 4 (by norm_num) _).2 (fun _ _ => rfl)
+
+/-! ## 4. The 2-D operator: `vstack([kron(I, D), kron(D, I)])` acts slice by slice -/
+
+lemma div_block {m a r : ℕ} (hr : r < m) : (a * m + r) / m = a := by
+  rw [Nat.add_comm, Nat.add_mul_div_right _ _ (by omega), Nat.div_eq_of_lt hr, Nat.zero_add]
+
+lemma mod_block {m a r : ℕ} (hr : r < m) : (a * m + r) % m = r := by
+  rw [Nat.add_comm, Nat.add_mul_mod_self_right, Nat.mod_eq_of_lt hr]
+
+/-- **`kron(I_n, D)` applies `D` to each of the `n` consecutive blocks of the image vector:**
+    row `a·rows + r` reads block `a` (`x_{a·cols + c}`, `c < cols`) through row `r` of `D`. -/
+theorem kron_eye_left_apply (D : FMat) (n : ℕ) (x : ℕ → R) (a r : ℕ) (ha : a < n)
+    (hr : r < D.rows) :
+    apply (kron (eye n) D) x (a * D.rows + r) = apply D (fun c => x (a * D.cols + c)) r := by
+  have e : ∀ a' c, c < D.cols → (kron (eye n) D).e (a * D.rows + r) (a' * D.cols + c)
+      = (if a = a' then 1 else 0) * D.e r c := by
+    intro a' c hc
+    simp only [kron]
+    rw [div_block hr, mod_block hr, div_block hc, mod_block hc]
+    rfl
+  unfold apply
+  rw [show (kron (eye n) D).cols = n * D.cols from rfl, sum_range_mul_block,
+    Finset.sum_eq_single a]
+  · refine Finset.sum_congr rfl fun c hc => ?_
+    rw [e a c (mem_range.1 hc), if_pos rfl, one_mul]
+  · intro a' _ hne
+    refine Finset.sum_eq_zero fun c hc => ?_
+    rw [e a' c (mem_range.1 hc), if_neg (Ne.symm hne), zero_mul, Int.cast_zero, zero_mul]
+  · intro h; exact absurd (mem_range.2 ha) h
+
+example : apply (kron (eye 2) (firstOrder .neumann 3)) (fun j => ((j : ℤ) + 1) ^ 2) (1 * 2 + 1)
+    = 6 ^ 2 - 5 ^ 2 := by
+  rw [show (1 * 2 + 1 : ℕ) = 1 * (firstOrder .neumann 3).rows + 1 from rfl,
+    kron_eye_left_apply _ _ _ _ _ (by norm_num) (by decide), firstOrder_neumann_apply]
+  norm_num [show (firstOrder .neumann 3).cols = 3 from rfl]
+
+/-- **`kron(D, I_n)` applies `D` across the blocks:** row `r·n + b` reads the strided slice
+    `x_{c·n + b}` (`c < cols`) through row `r` of `D`. -/
+theorem kron_eye_right_apply (D : FMat) (n : ℕ) (x : ℕ → R) (r b : ℕ) (hb : b < n) :
+    apply (kron D (eye n)) x (r * n + b) = apply D (fun c => x (c * n + b)) r := by
+  have e : ∀ c b', b' < n → (kron D (eye n)).e (r * n + b) (c * n + b')
+      = D.e r c * (if b = b' then 1 else 0) := by
+    intro c b' hb'
+    simp only [kron]
+    rw [show (eye n).rows = n from rfl, show (eye n).cols = n from rfl,
+      div_block hb, mod_block hb, div_block hb', mod_block hb']
+    rfl
+  unfold apply
+  rw [show (kron D (eye n)).cols = D.cols * n from rfl, sum_range_mul_block]
+  refine Finset.sum_congr rfl fun c _ => ?_
+  rw [Finset.sum_eq_single b]
+  · rw [e c b hb, if_pos rfl, mul_one]
+  · intro b' hb' hne
+    rw [e c b' (mem_range.1 hb'), if_neg (Ne.symm hne), mul_zero, Int.cast_zero, zero_mul]
+  · intro h; exact absurd (mem_range.2 hb) h
+
+example : apply (kron (firstOrder .neumann 3) (eye 2)) (fun j => ((j : ℤ) + 1) ^ 2) (1 * 2 + 1)
+    = 6 ^ 2 - 4 ^ 2 := by
+  rw [kron_eye_right_apply _ _ _ _ _ (by norm_num), firstOrder_neumann_apply]
+  norm_num
+
+/-- **Shape of the 2-D operator:** `n·rows(D)` rows of `kron(I,D)` stacked on `rows(D)·n` rows of
+    `kron(D,I)`, acting on images with `n·cols(D)` pixels. -/
+theorem lift2D_shape (D : FMat) (n : ℕ) :
+    (lift2D D n).rows = n * D.rows + D.rows * n ∧ (lift2D D n).cols = n * D.cols :=
+  ⟨rfl, rfl⟩
+
+/-- **Row split of the 2-D operator (`vstack`):** the first `n·rows(D)` rows are those of
+    `kron(I, D)`, the remaining ones those of `kron(D, I)`. -/
+theorem lift2D_apply (D : FMat) (n : ℕ) (x : ℕ → R) (i : ℕ) :
+    apply (lift2D D n) x i
+      = if i < n * D.rows then apply (kron (eye n) D) x i
+        else apply (kron D (eye n)) x (i - n * D.rows) := by
+  unfold apply
+  rw [show (lift2D D n).cols = n * D.cols from rfl]
+  have he : ∀ j, (lift2D D n).e i j
+      = if i < n * D.rows then (kron (eye n) D).e i j else (kron D (eye n)).e (i - n * D.rows) j :=
+    fun _ => rfl
+  split_ifs with h
+  · rw [show (kron (eye n) D).cols = n * D.cols from rfl]
+    exact Finset.sum_congr rfl fun j _ => by rw [he, if_pos h]
+  · rw [show (kron D (eye n)).cols = D.cols * n from rfl, Nat.mul_comm D.cols n]
+    exact Finset.sum_congr rfl fun j _ => by rw [he, if_neg h]
+
+/-- **Top half of the 2-D operator:** differences *within* block `a` of the image. -/
+theorem lift2D_apply_top (D : FMat) (n : ℕ) (x : ℕ → R) (a r : ℕ) (ha : a < n)
+    (hr : r < D.rows) :
+    apply (lift2D D n) x (a * D.rows + r) = apply D (fun c => x (a * D.cols + c)) r := by
+  have hlt : a * D.rows + r < n * D.rows :=
+    calc a * D.rows + r < a * D.rows + D.rows := by omega
+      _ = (a + 1) * D.rows := (Nat.succ_mul _ _).symm
+      _ ≤ n * D.rows := Nat.mul_le_mul_right _ ha
+  rw [lift2D_apply, if_pos hlt, kron_eye_left_apply D n x a r ha hr]
+
+/-- **Bottom half of the 2-D operator:** differences *across* blocks, at fixed offset `b`. -/
+theorem lift2D_apply_bottom (D : FMat) (n : ℕ) (x : ℕ → R) (r b : ℕ) (hb : b < n) :
+    apply (lift2D D n) x (n * D.rows + (r * n + b)) = apply D (fun c => x (c * n + b)) r := by
+  rw [lift2D_apply, if_neg (by omega), Nat.add_sub_cancel_left, kron_eye_right_apply D n x r b hb]
+
+example : apply (lift2D (firstOrder .neumann 3) 3) (fun j => ((j : ℤ) + 1) ^ 2) (3 * 2 + (1 * 3 + 2))
+    = 9 ^ 2 - 6 ^ 2 := by
+  rw [show (3 * 2 + (1 * 3 + 2) : ℕ) = 3 * (firstOrder .neumann 3).rows + (1 * 3 + 2) from rfl,
+    lift2D_apply_bottom _ _ _ _ _ (by norm_num), firstOrder_neumann_apply]
+  norm_num
+
+/-- **Null space of the 2-D operator, any `D`:** an image is annihilated iff every block
+    (`x_{a·cols + ·}`) and every strided slice (`x_{·n + b}`) is annihilated by the 1-D operator. -/
+theorem lift2D_null_iff (D : FMat) (n : ℕ) (x : ℕ → R) :
+    (∀ i, i < (lift2D D n).rows → apply (lift2D D n) x i = 0)
+      ↔ (∀ a, a < n → ∀ r, r < D.rows → apply D (fun c => x (a * D.cols + c)) r = 0)
+        ∧ (∀ b, b < n → ∀ r, r < D.rows → apply D (fun c => x (c * n + b)) r = 0) := by
+  rw [show (lift2D D n).rows = n * D.rows + D.rows * n from rfl]
+  constructor
+  · intro h
+    refine ⟨fun a ha r hr => ?_, fun b hb r hr => ?_⟩
+    · rw [← lift2D_apply_top D n x a r ha hr]
+      have hlt : a * D.rows + r < n * D.rows :=
+        calc a * D.rows + r < a * D.rows + D.rows := by omega
+          _ = (a + 1) * D.rows := (Nat.succ_mul _ _).symm
+          _ ≤ n * D.rows := Nat.mul_le_mul_right _ ha
+      exact h _ (by omega)
+    · rw [← lift2D_apply_bottom D n x r b hb]
+      have hlt : r * n + b < D.rows * n :=
+        calc r * n + b < r * n + n := by omega
+          _ = (r + 1) * n := (Nat.succ_mul _ _).symm
+          _ ≤ D.rows * n := Nat.mul_le_mul_right _ hr
+      exact h _ (by omega)
+  · rintro ⟨h1, h2⟩ i hi
+    by_cases c : i < n * D.rows
+    · have hpos : 0 < D.rows := by
+        rcases Nat.eq_zero_or_pos D.rows with h0 | h0
+        · rw [h0, Nat.mul_zero] at c; omega
+        · exact h0
+      have hi' : i = (i / D.rows) * D.rows + i % D.rows := by
+        rw [Nat.mul_comm]; exact (Nat.div_add_mod i D.rows).symm
+      have ha : i / D.rows < n := (Nat.div_lt_iff_lt_mul hpos).2 c
+      rw [hi', lift2D_apply_top D n x _ _ ha (Nat.mod_lt _ hpos)]
+      exact h1 _ ha _ (Nat.mod_lt _ hpos)
+    · have hj : i - n * D.rows < D.rows * n := by omega
+      have hpos : 0 < n := by
+        rcases Nat.eq_zero_or_pos n with h0 | h0
+        · rw [h0, Nat.mul_zero] at hj; omega
+        · exact h0
+      have hi' : i = n * D.rows + ((i - n * D.rows) / n * n + (i - n * D.rows) % n) := by
+        rw [Nat.mul_comm _ n, Nat.div_add_mod]; omega
+      have hr : (i - n * D.rows) / n < D.rows := (Nat.div_lt_iff_lt_mul hpos).2 hj
+      rw [hi', lift2D_apply_bottom D n x _ _ (Nat.mod_lt _ hpos)]
+      exact h2 _ (Nat.mod_lt _ hpos) _ hr
+
+/-- if the 1-D null space is the constants, so is the 2-D one -/
+lemma lift2D_null_const (D : FMat) (n : ℕ) (hc : D.cols = n)
+    (hD : ∀ y : ℕ → R, (∀ r, r < D.rows → apply D y r = 0) ↔ ∀ i, i < n → y i = y 0)
+    (x : ℕ → R) :
+    (∀ i, i < (lift2D D n).rows → apply (lift2D D n) x i = 0)
+      ↔ ∀ a, a < n → ∀ c, c < n → x (a * n + c) = x 0 := by
+  rw [lift2D_null_iff, hc]
+  constructor
+  · rintro ⟨h1, h2⟩ a ha c hc'
+    have t1 := (hD _).1 (h1 a ha) c hc'
+    have t2 := (hD _).1 (h2 0 (by omega)) a ha
+    simp only [Nat.add_zero, Nat.zero_mul] at t1 t2
+    rw [t1, t2]
+  · intro h
+    refine ⟨fun a ha => (hD _).2 fun c hc' => ?_, fun b hb => (hD _).2 fun c hc' => ?_⟩
+    · show x (a * n + c) = x (a * n + 0)
+      rw [h a ha c hc', h a ha 0 (by omega)]
+    · show x (c * n + b) = x (0 * n + b)
+      rw [h c hc' b hb, h 0 (by omega) b hb]
+
+/-- if the 1-D null space is trivial, so is the 2-D one -/
+lemma lift2D_null_trivial (D : FMat) (n : ℕ) (hc : D.cols = n)
+    (hD : ∀ y : ℕ → R, (∀ r, r < D.rows → apply D y r = 0) ↔ ∀ i, i < n → y i = 0)
+    (x : ℕ → R) :
+    (∀ i, i < (lift2D D n).rows → apply (lift2D D n) x i = 0)
+      ↔ ∀ a, a < n → ∀ c, c < n → x (a * n + c) = 0 := by
+  rw [lift2D_null_iff, hc]
+  constructor
+  · rintro ⟨h1, _⟩ a ha c hc'
+    exact (hD _).1 (h1 a ha) c hc'
+  · intro h
+    exact ⟨fun a ha => (hD _).2 fun c hc' => h a ha c hc',
+      fun b hb => (hD _).2 fun c hc' => h c hc' b hb⟩
+
+/-- **2-D null space, order 1, Neumann: exactly the constant images** (every `n × n`). -/
+theorem diffOp2D_order1_neumann_null_iff (n : ℕ) (x : ℕ → R) :
+    (∀ i, i < (diffOp2D 1 .neumann n).rows → apply (diffOp2D 1 .neumann n) x i = 0)
+      ↔ ∀ a, a < n → ∀ c, c < n → x (a * n + c) = x 0 :=
+  lift2D_null_const (firstOrder .neumann n) n rfl (firstOrder_neumann_null_iff n) x
+
+/-- **2-D null space, order 1, periodic (`n ≥ 2`): exactly the constant images.** -/
+theorem diffOp2D_order1_periodic_null_iff (n : ℕ) (hn : 2 ≤ n) (x : ℕ → R) :
+    (∀ i, i < (diffOp2D 1 .periodic n).rows → apply (diffOp2D 1 .periodic n) x i = 0)
+      ↔ ∀ a, a < n → ∀ c, c < n → x (a * n + c) = x 0 :=
+  lift2D_null_const (firstOrder .periodic n) n rfl (firstOrder_periodic_null_iff n hn) x
+
+/-- **2-D null space, order 2, periodic (`n ≥ 3`): exactly the constant images.** -/
+theorem diffOp2D_order2_periodic_null_iff {K : Type*} [CommRing K] [IsDomain K] [CharZero K]
+    (n : ℕ) (hn : 3 ≤ n) (x : ℕ → K) :
+    (∀ i, i < (diffOp2D 2 .periodic n).rows → apply (diffOp2D 2 .periodic n) x i = 0)
+      ↔ ∀ a, a < n → ∀ c, c < n → x (a * n + c) = x 0 :=
+  lift2D_null_const (secondOrder .periodic n) n rfl (secondOrder_periodic_null_iff n hn) x
+
+/-- **2-D null space, zero boundary, order 1 and 2: trivial** (every `n × n`). -/
+theorem diffOp2D_zero_null_iff (n : ℕ) (x : ℕ → R) :
+    ((∀ i, i < (diffOp2D 1 .zero n).rows → apply (diffOp2D 1 .zero n) x i = 0)
+      ↔ ∀ a, a < n → ∀ c, c < n → x (a * n + c) = 0)
+    ∧ ((∀ i, i < (diffOp2D 2 .zero n).rows → apply (diffOp2D 2 .zero n) x i = 0)
+      ↔ ∀ a, a < n → ∀ c, c < n → x (a * n + c) = 0) :=
+  ⟨lift2D_null_trivial (firstOrder .zero n) n rfl (firstOrder_zero_null_iff n) x,
+   lift2D_null_trivial (secondOrder .zero n) n rfl (secondOrder_zero_null_iff n) x⟩
+
+/-- **2-D null space, order 0 (identity ⊗ identity stacked twice): trivial for every `bc`.** -/
+theorem diffOp2D_order0_null_iff (bc : BC) (n : ℕ) (x : ℕ → R) :
+    (∀ i, i < (diffOp2D 0 bc n).rows → apply (diffOp2D 0 bc n) x i = 0)
+      ↔ ∀ a, a < n → ∀ c, c < n → x (a * n + c) = 0 :=
+  lift2D_null_trivial (firstOrder .none n) n rfl (firstOrder_none_null_iff n) x
+
+example : ∀ i, i < 12 → apply (diffOp2D 1 .neumann 3) (fun _ => (7 : ℚ)) i = 0 :=
+  (diffOp2D_order1_neumann_null_iff 3 _).2 (fun _ _ _ _ => rfl)
+
+/-! ## 5. Null space of the precision `DᵀD` GMRF uses, and the rank GMRF declares
+
+`gram (diffOp order bc n)` is exactly what the driver prints for `prec1` and what
+`PrecisionFiniteDifference(n, bc_type=bc, order=order)` is compared with.  Combining
+`gram_null_iff` with the 1-D null spaces gives the null space — hence the rank `n - nullity` —
+of every precision.  `nullity1D` is the number of free parameters of these null spaces. -/
+
+section precision
+variable {K : Type*} [Field K] [LinearOrder K] [IsStrictOrderedRing K]
+
+/-- **Order 0 (`P = I`), every `bc`: the precision is nonsingular.** -/
+theorem precision_order0_null_iff (bc : BC) (n : ℕ) (x : ℕ → K) :
+    (∀ i, i < n → apply (gram (diffOp 0 bc n)) x i = 0) ↔ ∀ i, i < n → x i = 0 :=
+  (gram_null_iff (firstOrder .none n) x).trans (firstOrder_none_null_iff n x)
+
+/-- **Order 1, zero boundary: nonsingular.** -/
+theorem precision_order1_zero_null_iff (n : ℕ) (x : ℕ → K) :
+    (∀ i, i < n → apply (gram (diffOp 1 .zero n)) x i = 0) ↔ ∀ i, i < n → x i = 0 :=
+  (gram_null_iff (firstOrder .zero n) x).trans (firstOrder_zero_null_iff n x)
+
+/-- **Order 1, periodic (`n ≥ 2`): null space = constants (nullity 1).** -/
+theorem precision_order1_periodic_null_iff (n : ℕ) (hn : 2 ≤ n) (x : ℕ → K) :
+    (∀ i, i < n → apply (gram (diffOp 1 .periodic n)) x i = 0) ↔ ∀ i, i < n → x i = x 0 :=
+  (gram_null_iff (firstOrder .periodic n) x).trans (firstOrder_periodic_null_iff n hn x)
+
+/-- **Order 1, Neumann: null space = constants (nullity 1).** -/
+theorem precision_order1_neumann_null_iff (n : ℕ) (x : ℕ → K) :
+    (∀ i, i < n → apply (gram (diffOp 1 .neumann n)) x i = 0) ↔ ∀ i, i < n → x i = x 0 :=
+  (gram_null_iff (firstOrder .neumann n) x).trans (firstOrder_neumann_null_iff n x)
+
+/-- **Order 2, zero boundary: nonsingular.** -/
+theorem precision_order2_zero_null_iff (n : ℕ) (x : ℕ → K) :
+    (∀ i, i < n → apply (gram (diffOp 2 .zero n)) x i = 0) ↔ ∀ i, i < n → x i = 0 :=
+  (gram_null_iff (secondOrder .zero n) x).trans (secondOrder_zero_null_iff n x)
+
+/-- **Order 2, periodic (`n ≥ 3`): null space = constants (nullity 1).** -/
+theorem precision_order2_periodic_null_iff (n : ℕ) (hn : 3 ≤ n) (x : ℕ → K) :
+    (∀ i, i < n → apply (gram (diffOp 2 .periodic n)) x i = 0) ↔ ∀ i, i < n → x i = x 0 :=
+  (gram_null_iff (secondOrder .periodic n) x).trans (secondOrder_periodic_null_iff n hn x)
+
+/-- **Order 2, Neumann: null space = affine sequences (nullity 2 for `n ≥ 2`).** -/
+theorem precision_order2_neumann_null_iff (n : ℕ) (x : ℕ → K) :
+    (∀ i, i < n → apply (gram (diffOp 2 .neumann n)) x i = 0)
+      ↔ ∀ i, i < n → x i = x 0 + (i : K) * (x 1 - x 0) :=
+  (gram_null_iff (secondOrder .neumann n) x).trans (secondOrder_neumann_null_iff n x)
+
+example : ∀ i, i < 5 → apply (gram (diffOp 2 .neumann 5)) (fun j => (2 : ℚ) - 3 * j) i = 0 :=
+  (precision_order2_neumann_null_iff 5 _).2 (fun i _ => by simp; ring)
+
+end precision
+
+/-- **When does GMRF's declared rank equal the true rank `n - nullity`?**  For `n ≥ 2`, exactly
+    for: zero boundary (any order), order 1 with periodic/Neumann, order ≥ 2 with periodic.
+    Every other combination — in particular order 0 with periodic/Neumann and order 2 with
+    Neumann — declares a wrong rank (the known findings). -/
+theorem declaredRank_eq_iff (order : ℕ) (bc : BC) (n : ℕ) (hn : 2 ≤ n) :
+    declaredRank bc n = n - nullity1D order bc
+      ↔ (bc = .zero ∨ (order = 1 ∧ (bc = .periodic ∨ bc = .neumann))
+          ∨ (2 ≤ order ∧ bc = .periodic)) := by
+  match order with
+  | 0 => cases bc <;> simp [declaredRank, nullity1D] <;> omega
+  | 1 => cases bc <;> simp [declaredRank, nullity1D] <;> omega
+  | k + 2 => cases bc <;> simp [declaredRank, nullity1D] <;> omega
+
+example : declaredRank .neumann 7 = 7 - nullity1D 1 .neumann :=
+  (declaredRank_eq_iff 1 .neumann 7 (by norm_num)).2 (by simp)
+
+/-- **Negative witness, order 0 with periodic or Neumann `bc`, every `n ≥ 1`:** the precision is
+    the identity — nonsingular, rank `n` — yet GMRF declares rank `n - 1 < n`
+    (so `logpdf` uses a wrong normalising constant). -/
+theorem declaredRank_wrong_order0 (bc : BC) (hbc : bc = .periodic ∨ bc = .neumann)
+    (n : ℕ) (hn : 1 ≤ n) :
+    (∀ x : ℕ → ℚ, (∀ i, i < n → apply (gram (diffOp 0 bc n)) x i = 0) → ∀ i, i < n → x i = 0)
+      ∧ declaredRank bc n = n - 1 ∧ declaredRank bc n < n - nullity1D 0 bc := by
+  refine ⟨fun x => (precision_order0_null_iff bc n x).1, ?_, ?_⟩
+  · rcases hbc with h | h <;> subst h <;> rfl
+  · rcases hbc with h | h <;> subst h <;> simp [declaredRank, nullity1D] <;> omega
+
+/-- the same at `n = 3`, on the matrix the driver prints: `P = I₃` but declared rank `2` -/
+theorem declaredRank_wrong_order0_n3 :
+    (gram (diffOp 0 .periodic 3)).toList = [[1, 0, 0], [0, 1, 0], [0, 0, 1]]
+      ∧ (gram (diffOp 0 .neumann 3)).toList = [[1, 0, 0], [0, 1, 0], [0, 0, 1]]
+      ∧ declaredRank .periodic 3 = 2 ∧ declaredRank .neumann 3 = 2 := by
+  decide
+
+/-- **Negative witness, order 2 with Neumann `bc`, every `n ≥ 2`:** the precision annihilates
+    both the constant vector and the ramp `x_i = i` (two independent null vectors, true rank
+    `n - 2`), yet GMRF declares rank `n - 1`. -/
+theorem declaredRank_wrong_order2_neumann (n : ℕ) (hn : 2 ≤ n) :
+    (∀ i, i < n → apply (gram (diffOp 2 .neumann n)) (fun _ => (1 : ℚ)) i = 0)
+      ∧ (∀ i, i < n → apply (gram (diffOp 2 .neumann n)) (fun j => (j : ℚ)) i = 0)
+      ∧ declaredRank .neumann n = n - 1 ∧ n - nullity1D 2 .neumann < declaredRank .neumann n := by
+  refine ⟨(precision_order2_neumann_null_iff n _).2 fun i _ => by simp,
+    (precision_order2_neumann_null_iff n _).2 fun i _ => by simp, rfl, ?_⟩
+  simp [declaredRank, nullity1D]; omega
+
+/-- the same at `n = 3`, on the matrix the driver prints: `P·(1,1,1) = P·(0,1,2) = 0`
+    (rank 1) but declared rank `2` -/
+theorem declaredRank_wrong_order2_neumann_n3 :
+    (gram (diffOp 2 .neumann 3)).toList = [[1, -2, 1], [-2, 4, -2], [1, -2, 1]]
+      ∧ declaredRank .neumann 3 = 2 ∧ 3 - nullity1D 2 .neumann = 1 := by
+  decide
+
+/-- **Degenerate size `n = 2`, order 2, periodic:** the code's boundary patches overwrite each other
+    (`Dmat[0,-2]` *is* `Dmat[0,0]`), the precision is `[[10,-8],[-8,10]]` with determinant `36`
+    (nonsingular, rank 2) while GMRF declares rank `1`; `secondOrder_periodic_null_iff` needs
+    `n ≥ 3` for exactly this reason. -/
+theorem secondOrder_periodic_n2_counterexample :
+    (secondOrder .periodic 2).toList = [[-1, 2], [2, -1], [-1, 2], [2, -1]]
+      ∧ (gram (diffOp 2 .periodic 2)).toList = [[10, -8], [-8, 10]]
+      ∧ (10 : ℤ) * 10 - (-8) * (-8) = 36 ∧ declaredRank .periodic 2 = 1 := by
+  decide
+
+/-! ## 6. 2-D: order 2 Neumann (bilinear images, nullity 4) and the 2-D precisions -/
+
+/-- **2-D null space, order 2, Neumann: exactly the bilinear images**
+    `x_{a,c} = x_{00} + c (x_{01} - x_{00}) + a (x_{10} - x_{00}) + a c (x_{11} - x_{10} - x_{01} + x_{00})`
+    — a four-parameter family for `n ≥ 2` (true rank `n² - 4`, GMRF declares `n² - 1`). -/
+theorem diffOp2D_order2_neumann_null_iff (n : ℕ) (x : ℕ → R) :
+    (∀ i, i < (diffOp2D 2 .neumann n).rows → apply (diffOp2D 2 .neumann n) x i = 0)
+      ↔ ∀ a, a < n → ∀ c, c < n → x (a * n + c)
+          = x 0 + (c : R) * (x 1 - x 0) + (a : R) * (x n - x 0)
+            + (a : R) * (c : R) * (x (n + 1) - x n - x 1 + x 0) := by
+  show (∀ i, i < (lift2D (secondOrder .neumann n) n).rows →
+      apply (lift2D (secondOrder .neumann n) n) x i = 0) ↔ _
+  rw [lift2D_null_iff, show (secondOrder .neumann n).cols = n from rfl]
+  simp only [secondOrder_neumann_null_iff]
+  constructor
+  · rintro ⟨h1, h2⟩ a ha c hc
+    have r := h1 a ha c hc
+    have c0 := h2 0 (by omega) a ha
+    simp only [Nat.add_zero, Nat.zero_mul, Nat.one_mul] at r c0
+    by_cases hn : 1 < n
+    · have c1 := h2 1 hn a ha
+      simp only [Nat.zero_mul, Nat.one_mul, Nat.zero_add] at c1
+      rw [r, c0, c1]; ring
+    · have hc0 : c = 0 := by omega
+      subst hc0
+      rw [Nat.add_zero, c0]; push_cast; ring
+  · intro h
+    by_cases hn : 1 < n
+    · refine ⟨fun a ha c hc => ?_, fun b hb a ha => ?_⟩
+      · show x (a * n + c) = x (a * n + 0) + (c : R) * (x (a * n + 1) - x (a * n + 0))
+        rw [h a ha c hc, h a ha 0 (by omega), h a ha 1 hn]; push_cast; ring
+      · show x (a * n + b) = x (0 * n + b) + (a : R) * (x (1 * n + b) - x (0 * n + b))
+        rw [h a ha b hb, h 0 (by omega) b hb, h 1 hn b hb]; push_cast; ring
+    · refine ⟨fun a ha c hc => ?_, fun b hb a ha => ?_⟩
+      · have hc0 : c = 0 := by omega
+        subst hc0; show x (a * n + 0) = x (a * n + 0) + ((0 : ℕ) : R) * _
+        push_cast; ring
+      · have ha0 : a = 0 := by omega
+        subst ha0; show x (0 * n + b) = x (0 * n + b) + ((0 : ℕ) : R) * _
+        push_cast; ring
+
+example : ∀ i, i < 6 → apply (diffOp2D 2 .neumann 3) (fun j => ((j / 3 : ℕ) : ℚ) * ((j % 3 : ℕ) : ℚ)) i = 0 := by
+  refine (diffOp2D_order2_neumann_null_iff 3 _).2 fun a ha c hc => ?_
+  have e1 : (a * 3 + c) / 3 = a := by omega
+  have e2 : (a * 3 + c) % 3 = c := by omega
+  simp only [e1, e2]; norm_num
+
+section precision2D
+variable {K : Type*} [Field K] [LinearOrder K] [IsStrictOrderedRing K]
+
+/-- **2-D precisions with the constants as null space (nullity 1, declared rank `n² - 1` correct):**
+    order 1 Neumann (every n), order 1 periodic (`n ≥ 2`), order 2 periodic (`n ≥ 3`). -/
+theorem precision2D_const_null_iff (n : ℕ) (x : ℕ → K) :
+    ((∀ i, i < n * n → apply (gram (diffOp2D 1 .neumann n)) x i = 0)
+        ↔ ∀ a, a < n → ∀ c, c < n → x (a * n + c) = x 0)
+    ∧ (2 ≤ n → ((∀ i, i < n * n → apply (gram (diffOp2D 1 .periodic n)) x i = 0)
+        ↔ ∀ a, a < n → ∀ c, c < n → x (a * n + c) = x 0))
+    ∧ (3 ≤ n → ((∀ i, i < n * n → apply (gram (diffOp2D 2 .periodic n)) x i = 0)
+        ↔ ∀ a, a < n → ∀ c, c < n → x (a * n + c) = x 0)) :=
+  ⟨(gram_null_iff (diffOp2D 1 .neumann n) x).trans (diffOp2D_order1_neumann_null_iff n x),
+   fun hn => (gram_null_iff (diffOp2D 1 .periodic n) x).trans
+     (diffOp2D_order1_periodic_null_iff n hn x),
+   fun hn => (gram_null_iff (diffOp2D 2 .periodic n) x).trans
+     (diffOp2D_order2_periodic_null_iff n hn x)⟩
+
+/-- **2-D precisions that are nonsingular:** zero boundary (orders 1, 2) and order 0 with *any*
+    `bc` — for which GMRF nevertheless declares rank `n² - 1` when `bc` is periodic/Neumann. -/
+theorem precision2D_trivial_null_iff (bc : BC) (n : ℕ) (x : ℕ → K) :
+    ((∀ i, i < n * n → apply (gram (diffOp2D 1 .zero n)) x i = 0)
+        ↔ ∀ a, a < n → ∀ c, c < n → x (a * n + c) = 0)
+    ∧ ((∀ i, i < n * n → apply (gram (diffOp2D 2 .zero n)) x i = 0)
+        ↔ ∀ a, a < n → ∀ c, c < n → x (a * n + c) = 0)
+    ∧ ((∀ i, i < n * n → apply (gram (diffOp2D 0 bc n)) x i = 0)
+        ↔ ∀ a, a < n → ∀ c, c < n → x (a * n + c) = 0) :=
+  ⟨(gram_null_iff (diffOp2D 1 .zero n) x).trans (diffOp2D_zero_null_iff n x).1,
+   (gram_null_iff (diffOp2D 2 .zero n) x).trans (diffOp2D_zero_null_iff n x).2,
+   (gram_null_iff (diffOp2D 0 bc n) x).trans (diffOp2D_order0_null_iff bc n x)⟩
+
+/-- **2-D precision, order 2 Neumann: null space = bilinear images (nullity 4 for `n ≥ 2`).** -/
+theorem precision2D_order2_neumann_null_iff (n : ℕ) (x : ℕ → K) :
+    (∀ i, i < n * n → apply (gram (diffOp2D 2 .neumann n)) x i = 0)
+      ↔ ∀ a, a < n → ∀ c, c < n → x (a * n + c)
+          = x 0 + (c : K) * (x 1 - x 0) + (a : K) * (x n - x 0)
+            + (a : K) * (c : K) * (x (n + 1) - x n - x 1 + x 0) :=
+  (gram_null_iff (diffOp2D 2 .neumann n) x).trans (diffOp2D_order2_neumann_null_iff n x)
+
+example : ∀ i, i < 3 * 3 → apply (gram (diffOp2D 1 .neumann 3)) (fun _ => (7 : ℚ)) i = 0 :=
+  (precision2D_const_null_iff 3 _).1.2 (fun _ _ _ _ => rfl)
+
+end precision2D
+
+/-- **Negative witness in 2-D, order 2 Neumann, every `n ≥ 2`:** all four parameters of the
+    bilinear family are free — `p + q·a + r·c + s·a·c` (pixel `j = a·n + c`) is annihilated by the
+    precision for every `p q r s` — so its rank is `n² - 4`, while GMRF declares `n² - 1`. -/
+theorem declaredRank_wrong_order2_neumann_2D (n : ℕ) (hn : 2 ≤ n) (p q r s : ℚ) :
+    (∀ i, i < n * n → apply (gram (diffOp2D 2 .neumann n))
+        (fun j => p + q * ((j / n : ℕ) : ℚ) + r * ((j % n : ℕ) : ℚ)
+          + s * ((j / n : ℕ) : ℚ) * ((j % n : ℕ) : ℚ)) i = 0)
+      ∧ declaredRank .neumann (n * n) = n * n - 1 := by
+  refine ⟨(precision2D_order2_neumann_null_iff n _).2 fun a ha c hc => ?_, rfl⟩
+  have e1 : (a * n + c) / n = a := div_block hc
+  have e2 : (a * n + c) % n = c := mod_block hc
+  have e3 : 1 / n = 0 := Nat.div_eq_of_lt (by omega)
+  have e4 : 1 % n = 1 := Nat.mod_eq_of_lt (by omega)
+  have e5 : n / n = 1 := Nat.div_self (by omega)
+  have e6 : (n + 1) / n = 1 := by
+    have := div_block (m := n) (a := 1) (r := 1) (by omega); rwa [Nat.one_mul] at this
+  have e7 : (n + 1) % n = 1 := by
+    have := mod_block (m := n) (a := 1) (r := 1) (by omega); rwa [Nat.one_mul] at this
+  simp only [e1, e2, e3, e4, e5, e6, e7, Nat.zero_div, Nat.zero_mod, Nat.mod_self]
+  push_cast; ring
+
+example : apply (gram (diffOp2D 2 .neumann 3))
+    (fun j => (1 : ℚ) + 2 * ((j / 3 : ℕ) : ℚ) + 3 * ((j % 3 : ℕ) : ℚ)
+      + 4 * ((j / 3 : ℕ) : ℚ) * ((j % 3 : ℕ) : ℚ)) 4 = 0 :=
+  (declaredRank_wrong_order2_neumann_2D 3 (by norm_num) 1 2 3 4).1 4 (by norm_num)
 
 end CuqiVerif.C20
